@@ -17,6 +17,8 @@ enum Kind {
     FailedData,     // FAILED_VALID | HAVE_DATA, validity TRANSACTIONS
     FailedChild,    // FAILED_CHILD, header only
     ReorgedBranch,  // two once-active blocks (VALID_SCRIPTS, data+undo) forking below the tip, ending below it
+    InvalidatedBranch, // once fully validated, then marked invalid (invalidateblock): FAILED_VALID + FAILED_CHILD descendants, reaching ABOVE the tip
+    UnconnectedAbove,  // downloaded but never connected blocks (VALID_TRANSACTIONS|HAVE_DATA) building on the tip, above it
 }
 
 #[derive(Clone, Copy, Debug, PartialEq, Eq, Hash, PartialOrd, Ord)]
@@ -83,7 +85,10 @@ pub fn run() -> Report {
     }
     for later in [false, true] {
         singles.push(Extra { kind: Kind::ReorgedBranch, height: 2, later });
+        singles.push(Extra { kind: Kind::InvalidatedBranch, height: 4, later });
     }
+    singles.push(Extra { kind: Kind::InvalidatedBranch, height: 3, later: true });
+    singles.push(Extra { kind: Kind::UnconnectedAbove, height: 5, later: true });
     let mut sets: Vec<Vec<Extra>> = vec![vec![]];
     for s in &singles {
         sets.push(vec![*s]);
@@ -105,7 +110,7 @@ pub fn run() -> Report {
             }
         }
     }
-    rep.rule = "active chain of 5 blocks plus every set of <= 2 extra index records drawn from {header-only (VALID_TREE) at/below/beyond the tip, never-connected stale sibling with data, failed block with data, FAILED_CHILD header, once-active reorged-out 2-block branch}, each competitor at an occupied height in both LevelDB key orders (nonce ground); index histories {log only, header-only-then-upgraded across a compaction, table only}; csvdump and unspentcsvdump; non-trivial = distinct case with >= 1 extra record".into();
+    rep.rule = "active chain of 5 blocks plus every set of <= 2 extra index records drawn from {header-only (VALID_TREE) at/below/beyond the tip, never-connected stale sibling with data, failed block with data, FAILED_CHILD header, once-active reorged-out 2-block branch, invalidated (FAILED_VALID/FAILED_CHILD, formerly fully validated) 3-block branch reaching above the tip, never-connected blocks with data above the tip}, each competitor at an occupied height in both LevelDB key orders (nonce ground); index histories {log only, header-only-then-upgraded across a compaction, table only}; csvdump and unspentcsvdump; non-trivial = distinct case with >= 1 extra record".into();
     rep.bound = json!({"active_chain": 5, "extras_per_index": "<=2", "singles": singles.len(), "sets": sets.len(), "cases": cases.len()});
     rep.not_covered = vec!["two fully validated competing tips of equal height (not decidable from the index alone)".into(), "adversarial header bytes in header-only records".into()];
     let root = refmodel::world::scratch_root();
@@ -142,6 +147,21 @@ pub fn run() -> Report {
                     Kind::StaleData => add(&mut world, &competitor(&chain.blocks, x.height, tag, x.later, None), x.height, VALID_TRANSACTIONS | HAVE_DATA),
                     Kind::FailedData => add(&mut world, &competitor(&chain.blocks, x.height, tag, x.later, None), x.height, VALID_TRANSACTIONS | HAVE_DATA | FAILED_VALID),
                     Kind::FailedChild => add(&mut world, &competitor(&chain.blocks, x.height, tag, x.later, Some([0x66; 32])), x.height, VALID_TREE | FAILED_CHILD),
+                    Kind::InvalidatedBranch => {
+                        // fork below the tip, three blocks: ends above the active tip
+                        let b1 = competitor(&chain.blocks, x.height, tag, x.later, None);
+                        let b2 = competitor(&chain.blocks, x.height + 1, tag + 1, x.later, Some(b1.hash()));
+                        let b3 = competitor(&chain.blocks, x.height + 2, tag + 2, x.later, Some(b2.hash()));
+                        add(&mut world, &b1, x.height, ACTIVE | FAILED_VALID);
+                        add(&mut world, &b2, x.height + 1, ACTIVE | FAILED_CHILD);
+                        add(&mut world, &b3, x.height + 2, ACTIVE | FAILED_CHILD);
+                    }
+                    Kind::UnconnectedAbove => {
+                        let b1 = competitor(&chain.blocks, x.height, tag, x.later, Some(chain.blocks[TIP as usize].hash()));
+                        let b2 = competitor(&chain.blocks, x.height + 1, tag + 1, x.later, Some(b1.hash()));
+                        add(&mut world, &b1, x.height, VALID_TRANSACTIONS | HAVE_DATA);
+                        add(&mut world, &b2, x.height + 1, VALID_TRANSACTIONS | HAVE_DATA);
+                    }
                     Kind::ReorgedBranch => {
                         let b1 = competitor(&chain.blocks, x.height, tag, x.later, None);
                         let b2 = competitor(&chain.blocks, x.height + 1, tag + 1, x.later, Some(b1.hash()));
@@ -227,7 +247,7 @@ pub fn run() -> Report {
             }
             if let Some((sig, detail)) = bad.into_iter().next() {
                 // failure signature: which kind of record displaced the active one
-                let culprit = c.extras.iter().filter(|x| matches!(x.kind, Kind::StaleData | Kind::FailedData | Kind::ReorgedBranch) && x.height <= TIP).map(|x| format!("{:?}@occupied-height:{}", x.kind, if x.later { "key-sorts-later" } else { "key-sorts-earlier" })).collect::<Vec<_>>().join("+");
+                let culprit = c.extras.iter().filter(|x| matches!(x.kind, Kind::StaleData | Kind::FailedData | Kind::ReorgedBranch | Kind::InvalidatedBranch | Kind::UnconnectedAbove)).map(|x| format!("{:?}@occupied-height:{}", x.kind, if x.later { "key-sorts-later" } else { "key-sorts-earlier" })).collect::<Vec<_>>().join("+");
                 let sig = if culprit.is_empty() { sig } else { format!("{}[{}]", sig.split('-').next().unwrap_or(""), culprit) };
                 acc.disagree(&sig, format!("{:?}: {}", c, detail), replay_case(&world, &spec, expected_brief("output == model of the active chain", s, e), &r, &wk.dir));
             }
